@@ -91,7 +91,8 @@ package dialer
 //@   nonilcheck
 //@   modifies *
 //@   ensures calls("recordProxySuccess") == (success && old(d.property.Address) != "" ? 1 : 0)
-//@   ensures calls("recordProxyFailure") <= (!success && old(d.property.Address) != "" ? 1 : 0)
+//@   ensures success ==> calls("recordProxyFailure") == 0
+//@   ensures calls("recordProxyFailure") <= 1
 //@   ensures calls("triggerRecoveryDetection") == (success && isRevival ? 1 : 0)
 //@   ensures success ==> calls("markUnavailableFromProxyFailure") == 0 && calls("incrementBackoffLevelForType") == 0
 //@   ensures !success ==> calls("incrementBackoffLevelForType") == 1 && calls("resetStabilityCountForType") == 1 && calls("cancelPendingRecoveryConfirmationForType") == 1
